@@ -48,14 +48,27 @@ class TaskGroup:
         app_queue: asyncio.Queue[ASGIReceiveEvent] = asyncio.Queue(config.max_app_queue_size)
 
         finished = False
+        app_task: Optional[asyncio.Task] = None
 
         def _call_soon(func: Callable, *args: Any) -> Any:
             future = asyncio.run_coroutine_threadsafe(func(*args), self._loop)
             return future.result()
 
         async def _put(message: ASGIReceiveEvent) -> None:
-            if not finished:
+            if finished:
+                return
+            elif asyncio.current_task() is app_task and app_queue.full():
+                # Put from within one of the app's own sends (e.g. the
+                # disconnect that follows its final send), waiting for
+                # room here would be waiting for the app itself.
+                self.spawn(app_queue.put, message)
+            else:
                 await app_queue.put(message)
+
+        async def _run(*args: Any) -> None:
+            nonlocal app_task
+            app_task = asyncio.current_task()
+            await _handle(*args)
 
         async def _send(message: Optional[ASGISendEvent]) -> None:
             nonlocal finished
@@ -70,7 +83,7 @@ class TaskGroup:
             await send(message)
 
         self.spawn(
-            _handle,
+            _run,
             app,
             config,
             scope,
